@@ -357,6 +357,16 @@ def run(ctx, chk, tier):
             chk.hold("R04.5", "metrics.%s==%s" % (al, tgt), "same value number")
         else:
             chk.violation("R04.5", MET + al, "alias-of:" + tgt, show(va, 300), show(vt, 300), ctx.where(MET + al))
+        if al.endswith("_ci"):
+            # the defaulted call too: an alias whose default significance level differs from its original's is no alias
+            va, e1 = eval_fn(ctx, chk, MET + al, [M], {})
+            vt, e2 = eval_fn(ctx, chk, MET + tgt, [M], {})
+            if va is None or vt is None:
+                chk.unknown("R04.5", "alias %s (defaults): %s" % (al, e1 or e2))
+            elif same(va, vt):
+                chk.hold("R04.5", "metrics.%s==%s:defaults" % (al, tgt), "same value number for the defaulted call")
+            else:
+                chk.violation("R04.5", MET + al, "alias-of:" + tgt + ":defaults", show(va, 300), show(vt, 300), ctx.where(MET + al))
     cmcls = ctx.db.cls(CM)
     for meth, fn in sorted(CM_METHODS.items()):
         if meth not in cmcls.methods and cmcls.find_assign(meth) is None:     # a def, or a callable bound by class-level assignment (generated alias)
@@ -379,6 +389,17 @@ def run(ctx, chk, tier):
             chk.hold("R04.5", "cm.%s==metrics.%s" % (meth, fn), "binary ConfusionMatrix.%s() = metrics.%s(self.matrix)" % (meth, fn))
         else:
             chk.violation("R04.5", qn, "delegates-to:" + fn, show(rets[0].value, 300), show(vt, 300), ctx.where(qn))
+        if meth.endswith("_ci"):
+            kw = {}
+            outs = ctx.explore(call, chk)
+            rets = returns(outs)
+            vt, e2 = eval_fn(ctx, chk, MET + fn, [M], {})
+            if len(rets) != 1 or vt is None or rets[0].unmodelled:
+                chk.unknown("R04.5", "ConfusionMatrix.%s (defaults): %d return paths %s" % (meth, len(rets), e2 or ""))
+            elif same(rets[0].value, vt):
+                chk.hold("R04.5", "cm.%s==metrics.%s:defaults" % (meth, fn), "same interval for the defaulted call")
+            else:
+                chk.violation("R04.5", qn, "delegates-to:" + fn + ":defaults", show(rets[0].value, 300), show(vt, 300), ctx.where(qn))
     chk.floor("R04.5", 10 + 37, "10 metric aliases + 37 ConfusionMatrix methods")
     # hidden per-object state: a memo in the metric methods / decorator must be determined by its key (all arguments, keyword ones included)
     from . import c10
